@@ -224,9 +224,21 @@ def run_case(spec):
 # Coq emission
 # ================================================================================================
 def q(x):
+    """exact rational literal.  Dyadic rationals with a large denominator (floats) are written D m (-k) = m / 2^k:
+    Coq's parser is quadratic in the length of a numeral and tiny floats have denominators of hundreds of digits."""
     fr = Fraction(x)
-    if fr.denominator == 1 and fr.numerator >= 0:
-        return '%d' % fr.numerator
+    if fr.denominator == 1:
+        if abs(fr.numerator) < 10 ** 18:
+            return '%d' % fr.numerator if fr.numerator >= 0 else '(%d#1)' % fr.numerator
+        k = 0
+        n = fr.numerator
+        while n % 2 == 0:
+            n //= 2
+            k += 1
+        return '(D %s %d)' % (zl(n), k)
+    d = fr.denominator
+    if d & (d - 1) == 0 and d > 2 ** 16:
+        return '(D %s (-%d))' % (zl(fr.numerator), d.bit_length() - 1)
     return '(%d#%d)' % (fr.numerator, fr.denominator)
 
 
@@ -332,6 +344,8 @@ HEADER = ('From Coq Require Import ZArith QArith Qabs List Bool.\n'
           'From Verif.Gen Require Summation.\nImport ListNotations.\nOpen Scope Q_scope.\n')
 
 AGREE_DEFS = r'''
+(* m * 2^e *)
+Definition D (m e : Z) : Q := if (0 <=? e)%Z then inject_Z (m * 2 ^ e) else Qmake m (Z.to_pos (2 ^ (- e))).
 Inductive lim_entry := L (expr : str) (scope : list str) (i : nat) (out : outcome pyv).
 (* summand evaluations of one evaluate_sum call at n = start, start+step, ... (the points range() produced) *)
 Inductive term_entry := T (i : nat) (expr var : str) (scope : list str) (start step : Z) (outs : list (outcome (list Q))).
@@ -854,7 +868,8 @@ def transform(rng, author, entered, eo, variables, infinite):
             tree = ('add', tree, ('c', Fraction(rng.choice([1, -1, 2, 1]), rng.choice([1, 2, 4]))))
         elif op == 'scale':
             tree = ('mul', ('c', rng.choice([Fraction(11, 10), Fraction(21, 20), Fraction(9, 10), Fraction(101, 100),
-                                              Fraction(1001, 1000), Fraction(3, 2), Fraction(221, 200)])), tree)
+                                              Fraction(1001, 1000), Fraction(3, 2), Fraction(221, 200), Fraction(221, 200),
+                                              Fraction(10101, 10000), Fraction(10101, 10000), Fraction(200, 221)])), tree)
         elif op == 'perturb-limit':
             which = rng.choice([w for w, e in (('lo', e_lo), ('hi', e_hi)) if e])
             d = rng.choice([-2, -1, 1, 2])
@@ -1421,8 +1436,12 @@ def run(ctx):
     dist['error_classes'] = errkinds
     res.distribution = dist
     res.exhaustive = False
-    n, failing, errors = core.eval_agreement('c19', header(), 'case_ok', terms, shard=max(40, len(terms) // 32 + 1),
-                                             case_type='ccase')
+    # spread expensive cases (infinite sums) evenly over the shards
+    shard = max(20, len(terms) // 32 + 1)
+    nshards = max(1, (len(terms) + shard - 1) // shard)
+    order = sorted(range(len(terms)), key=lambda j: (j % nshards, j))
+    terms, metas = [terms[j] for j in order], [metas[j] for j in order]
+    n, failing, errors = core.eval_agreement('c19', header(), 'case_ok', terms, shard=shard, case_type='ccase')
     res.programs = n
     res.corr_errors += errors
     if failing:
@@ -1478,6 +1497,8 @@ TRUSTED = [
     'modelled, not verified: the expression parser and evaluator (oracles), numpy norm / float rounding (exact rationals in the model), '
     "voluptuous' validation of the configuration, variable sampling, Python's range / sum / dict order, "
     'post-evaluation validation (forbidden strings, required / permitted functions: property C09)',
+    'case encoding: strings are interned injectively (the model only compares them and tests emptiness / blankness), floats are '
+    'written as mantissa * 2^exponent, summand evaluations of one call as a table indexed by the arithmetic progression of its points',
     'independent reference harness/summation_exprs.py (Gaussian rationals in Fractions)',
 ]
 ASSUMPTIONS = ['limits are integers or +-infinity and |finite limit| <= cutoff (the implementation sorts the limits before replacing infinity)',
